@@ -52,6 +52,12 @@ TEXT_FAULTS = [
     ("component_ref_to_linebreak_item", "sub", "cA cB > cL:(1 3) {component {a.ref = @1; b.ref = @2}} _ / _ # _;",
      "cA cB > cL:(1 3) {component {a.ref = @1; b.ref = @3}} _ / _ # _;", "LIG", "LIG", {"2143"}),
     ("attach_to_linebreak_item", "pos", "cA {attach.to = @2} / _ # cB;", "cA {attach.to = @3} / _ # cB;", "", "", {"2143"}),
+    # references to "item 0", alone in the pass and next to a rule with a leading context (which makes the compiler prepend
+    # ANY items to this rule and renumber its references)
+    ("association_zero", "sub", "cA _ > cB cC:0;", "cA _ > cB cC:1;", "", "", {"3113"}),
+    ("association_zero_with_padding", "sub", "cA _ > cB cC:0; cC > cA / cB cB _;", "cA _ > cB cC:1; cC > cA / cB cB _;", "", "", {"3113"}),
+    ("slot_reference_zero_with_padding", "sub", "cA > cB {user1 = @0.user1}; cC > cA / cB cB _;", "cA > cB {user1 = @1.user1}; cC > cA / cB cB _;", "", "", {"2140"}),
+    ("slot_reference_zero_in_constraint_with_padding", "sub", "cA > cB / _ {@0.user1 == 1}; cC > cA / cB cB _;", "cA > cB / _ {@1.user1 == 1}; cC > cA / cB cB _;", "", "", {"2140"}),
     ("attr_value_from_inserted_item", "sub", "_ cA > cC:2 cB {user1 = @1.user1};", "_ cA > cC:2 cB {user1 = @2.user1};", "", "", {"2141"}),
     ("constraint_reads_inserted_item", "sub", "_ cA > cC:2 cB / _ _ {@1.user1 == 1};", "_ cA > cC:2 cB / _ _ {@2.user1 == 1};", "", "", {"2141"}),
     ("attribute_wrong_role_feature", "sub", "cA > cB {f1 = cC};", "cA > cB {user1 = 1};", "", "", None),
